@@ -86,7 +86,10 @@ def send(app, req):
     headers = {}
     if req.get('accept_encoding') is not None:
         headers['Accept-Encoding'] = req['accept_encoding']
-    resp = cl.open(req['path'], method=req.get('method', 'GET'), headers=headers)
+    if req.get('cookie') is not None:
+        cl = Client(app, Response, use_cookies=False)
+        headers['Cookie'] = req['cookie']
+    resp = cl.open(req['path'], method=req.get('method', 'GET'), headers=headers, query_string=req.get('query'))
     body = resp.get_data()
     enc = resp.headers.get('Content-Encoding')
     if enc == 'gzip':
